@@ -34,7 +34,11 @@ import (
 //   - $and / $or are intersection / union, $not is set complement within the listing.
 //   - with a point in time: transactions with timestamp <= PIT, accounts first used
 //     <= PIT, metadata and revert marks as of PIT, volumes and balances folded over the
-//     postings with effective (or, when asked, insertion) date <= PIT.
+//     postings with effective (or, when asked, insertion) date <= PIT. "Metadata as of
+//     PIT" needs the history of the metadata: on a ledger whose ACCOUNT_METADATA_HISTORY
+//     (for account metadata: accounts, volumes, aggregated balances) resp.
+//     TRANSACTION_METADATA_HISTORY (transactions) feature is DISABLED no history is
+//     kept and a point-in-time query sees the current metadata (variant.accCur/txCur).
 const prefixMatchesRoot = true
 
 func matchAddress(pattern, addr string) bool {
@@ -107,6 +111,11 @@ type variant struct {
 	PIT   *time.Time `json:"pit,omitempty"`
 	Ins   bool       `json:"useInsertionDate,omitempty"`
 	Group int        `json:"groupLvl,omitempty"`
+	// source of the metadata a point-in-time query sees: the revision as of the PIT
+	// (false: the resource's metadata-history feature is SYNC) or the current metadata
+	// (true: the feature is DISABLED, no history is kept). Set from the ledger's feature
+	// configuration (Built.under); the zero value is the default feature set.
+	accCur, txCur bool
 }
 
 func (v variant) asOf(ts, inserted time.Time) bool {
@@ -132,8 +141,8 @@ type row struct {
 	log   *lx.RefLog
 }
 
-func metaAsOf(cur map[string]string, hist []lx.MetaRev, pit *time.Time) map[string]string {
-	if pit == nil {
+func metaAsOf(cur map[string]string, hist []lx.MetaRev, pit *time.Time, useCurrent bool) map[string]string {
+	if pit == nil || useCurrent {
 		return cur
 	}
 	if m := lx.MetaAt(hist, *pit); m != nil {
@@ -180,7 +189,7 @@ func txRows(ref *lx.Ref, v variant) []*row {
 		if v.PIT != nil && t.TS.After(*v.PIT) {
 			continue
 		}
-		r := &row{key: fmt.Sprint(t.ID), tx: t, meta: metaAsOf(t.Meta, t.MetaHist, v.PIT)}
+		r := &row{key: fmt.Sprint(t.ID), tx: t, meta: metaAsOf(t.Meta, t.MetaHist, v.PIT, v.txCur)}
 		if t.RevertedAt != nil && (v.PIT == nil || !t.RevertedAt.After(*v.PIT)) {
 			r.revAt = t.RevertedAt
 		}
@@ -235,7 +244,7 @@ func accRows(ref *lx.Ref, v variant) []*row {
 		if v.PIT != nil && a.FirstUsage.After(*v.PIT) {
 			continue
 		}
-		out = append(out, &row{key: a.Addr, acc: a, meta: metaAsOf(a.Meta, a.MetaHist, v.PIT), vols: vols[a.Addr]})
+		out = append(out, &row{key: a.Addr, acc: a, meta: metaAsOf(a.Meta, a.MetaHist, v.PIT, v.accCur), vols: vols[a.Addr]})
 	}
 	return out
 }
@@ -278,7 +287,7 @@ func volRows(ref *lx.Ref, v variant) []*row {
 		for _, as := range assets {
 			r := &row{key: addr + "|" + as, acc: acc, asset: as, vol: vols[addr][as]}
 			if acc != nil {
-				r.meta = metaAsOf(acc.Meta, acc.MetaHist, v.PIT)
+				r.meta = metaAsOf(acc.Meta, acc.MetaHist, v.PIT, v.accCur)
 			}
 			out = append(out, r)
 		}
